@@ -2,6 +2,7 @@
 import itertools
 import random
 import warnings
+from fractions import Fraction as Fr
 
 import numpy as np
 
@@ -9,12 +10,19 @@ import common as C
 import gen as G
 
 LEVEL = "proof"
-TRUSTED = ["model: coq/Model/Count.v (bins_go, count_binned, bin_sum_cnt) over Model/Restrict.v; theorems: Proofs/CountProofs.v"]
-ASSUMPTIONS = ["bin sizes are even numbers of ticks (centres on ticks) or the rounded centre may be either neighbour tick (rounding of x.5 ns is C09's)",
-               "exhaustive cases live on the dyadic lattice 2^-9 s; random cases on decimal lattices incl. centres exactly on the interval end (deterministic since the kernel "
-               "rounds the centre like the edges)"]
+TRUSTED = ["model: coq/Model/Count.v (bins_go, count_binned, bin_sum_cnt) over Model/Restrict.v; theorems: Proofs/CountProofs.v "
+           "(the model takes a bin size that is a whole number of ticks; other bin sizes are checked against the statement only, in exact rationals)"]
+ASSUMPTIONS = ["a reported timestamp is a tick (1 ns, the library's time resolution): when the exact centre l+b/2 is not on a tick either neighbouring tick is accepted, "
+               "when it is on a tick that tick is required; the test 'centre <= interval end' is NOT relaxed (a centre half a tick beyond the end must not be reported)",
+               "a bin size given as the float b/1e9, b/1e6 or b/1e3 with b a whole number of ns is read as exactly b ns (the float nearest to a decimal: C09); every other bin size "
+               "is read as the exact value of the float and the grid is computed in exact rationals; non-dyadic ones (1/3 ms, 1/30 s ...) only on inputs where no sample lies "
+               "within 0.001 ns of a bin edge without being on it and no end within 0.001 ns of a centre (such inputs are counted as float_ambiguous, not checked)",
+               "exhaustive cases live on the dyadic lattice 2^-9 s; random cases on decimal lattices incl. odd numbers of ns and centres on / half a tick before / half a tick "
+               "beyond the interval end"]
 
 U = 1953125  # 2^-9 s in ticks: dyadic AND a whole number of ns
+UNITS = {"s": 10**9, "ms": 10**6, "us": 10**3}
+DTYPES = (np.int64, np.int32, np.float64, np.uint8, np.float32, np.int16, "uint64")
 
 
 def _nap():
@@ -23,186 +31,411 @@ def _nap():
     return nap, J
 
 
-def oracle(ts, ep, b):
+# ---------------------------------------------------------------------------------------------------------------
+# the statement, brute force.  b: int or Fraction, in ticks.  `late` (explanation variants only): intervals granted the bin
+# whose centre lies exactly half a tick beyond the end.
+def oracle_avg(ts, vs, ep, b, late=()):
     out = []
-    for s, e in ep:
+    for i, (s, e) in enumerate(ep):
         l = s
-        while 2 * l + b <= 2 * e:
-            out.append((2 * l + b, sum(1 for t in ts if s <= t <= e and l <= t < l + b)))
-            l += b
-    return out
-
-
-def oracle_avg(ts, vs, ep, b):
-    out = []
-    for s, e in ep:
-        l = s
-        while 2 * l + b <= 2 * e:
+        while 2 * l + b <= 2 * e + (1 if i in late else 0):
             sel = [v for t, v in zip(ts, vs) if s <= t <= e and l <= t < l + b]
             out.append((2 * l + b, len(sel), sum(sel)))
             l += b
     return out
 
 
+def oracle(ts, ep, b, late=()):
+    return [(c2, n) for c2, n, _ in oracle_avg(ts, [0] * len(ts), ep, b, late)]
+
+
 def centre_ok(rep_tick, c2):
-    """reported tick vs doubled exact centre"""
-    return 2 * rep_tick == c2 or (c2 % 2 == 1 and abs(2 * rep_tick - c2) == 1)
+    """reported tick vs doubled exact centre: the centre itself when it is a tick, else one of its two neighbours"""
+    d = abs(2 * rep_tick - c2)
+    return d == 0 if c2 % 2 == 0 else d < 2
 
 
+def diff_count(got, exp):
+    """got [(tick, count)], exp [(2*centre, count)] -> None or the part that differs"""
+    if len(got) != len(exp):
+        return "grid"
+    if not all(centre_ok(a[0], e_[0]) for a, e_ in zip(got, exp)):
+        return "timestamp"
+    if not all(a[1] == e_[1] for a, e_ in zip(got, exp)):
+        return "count"
+    return None
+
+
+def diff_avg(got, exp, scale=1):
+    """got [(tick, value)], exp [(2*centre, cnt, sum)]; the column holds scale * vs"""
+    if len(got) != len(exp):
+        return "grid"
+    if not all(centre_ok(a[0], e_[0]) for a, e_ in zip(got, exp)):
+        return "timestamp"
+    for (_, d), (_, cnt, sm) in zip(got, exp):
+        if (cnt == 0) != bool(np.isnan(d)):
+            return "nan"
+        if cnt and abs(d * cnt - scale * sm) > 1e-9:
+            return "mean"
+    return None
+
+
+def late_candidates(ep, b):
+    """intervals that have a bin centre exactly half a tick beyond their end (possible only for an odd whole number of ticks)"""
+    if b != int(b) or int(b) % 2 == 0:
+        return []
+    b = int(b)
+    return [i for i, (s, e) in enumerate(ep) if 2 * (e - s) + 1 - b >= 0 and (2 * (e - s) + 1 - b) % (2 * b) == 0]
+
+
+def explain(differ, got, mk, ep, b):
+    """Which known deviation (if any) reproduces the implementation's output exactly:
+       bin_rounded_to_ns    - the grid is built with the bin size rounded to a whole number of ns;
+       centre_rounded_to_ns - the centre is rounded to ns before it is compared with the interval end (a centre half a tick beyond the end passes).
+       mk(bb, late) = the statement's output for bin size bb with the `late` intervals granted that extra bin."""
+    whole = b == int(b)
+    flags = {"bin_whole_ns": bool(whole), "bin_rounded_to_ns": False, "centre_rounded_to_ns": False}
+    cands = [(int(b), False)] if whole else [(bb, True) for bb in sorted({int(b // 1), int(-((-b) // 1))}) if bb > 0 and abs(b - bb) <= Fr(1, 2)]
+    for bb, rounded in cands:
+        lc = late_candidates(ep, bb)
+        for r in range(0 if rounded else 1, len(lc) + 1):
+            for sub in itertools.combinations(lc, r):
+                if differ(got, mk(bb, set(sub))) is None:
+                    flags["bin_rounded_to_ns"] = rounded
+                    flags["centre_rounded_to_ns"] = r > 0
+                    return flags
+    return flags
+
+
+def near_miss(ts, ep, b):
+    """non-dyadic bin size: a sample within 0.001 tick of a bin edge without being on it, or an end within 0.001 tick of a centre without
+    being on it (the float handed to the library is not the rational the user meant; the attribution is then a matter of reading the float)"""
+    eps = Fr(1, 1000)
+    for s, e in ep:
+        for t in [x for x in ts if s <= x <= e]:
+            r = (t - s) % b
+            if 0 < r < eps or 0 < b - r < eps:
+                return True
+        r = (e - s - b / 2) % b
+        if e - s >= b / 2 and (0 < r < eps or 0 < b - r < eps):
+            return True
+    return False
+
+
+# ---------------------------------------------------------------------------------------------------------------
+# generators
 def cases(tier, seed):
+    """-> list of dicts {ts, ep, bin (ticks, int) | value+units (+bin = exact Fraction ticks), kind}"""
     out = []
     N = 7 if tier == "quick" else 8
     pts = G.lattice(N, step=U)
-    eps = G.canonical_isets(pts, 2)
+    eps = G.canonical_isets(pts, 2)          # includes the empty IntervalSet
     tss = G.sorted_multisets(pts, 3 if tier == "quick" else 4)
     bs = [U, 2 * U, 3 * U, 4 * U, 7 * U]
     for ep in eps:
-        if not ep:
-            continue
         for ts in tss:
             for b in bs:
                 out.append((ts, ep, b, "dyadic"))
     rng = random.Random(seed * 17 + 2)
     if tier == "quick":
-        out = rng.sample(out, 9000) + [c for c in out if len(c[0]) == 0][:200]
-    # decimal lattice, random
-    for _ in range(600 if tier == "quick" else 6000):
+        out = rng.sample(out, 7000) + [c for c in out if len(c[0]) == 0][:200] + [c for c in out if not c[1]][:60]
+    q = tier == "quick"
+    # decimal lattice, random, even numbers of ns
+    for _ in range(500 if q else 5000):
         ep = G.rand_canonical_iset(rng, 4, gaps=(1000, 2000, 5000, 10000, 30000, 1000000))
-        if not ep:
-            continue
         b = rng.choice([1000, 2000, 4000, 10000, 50000, 3000])
         anchors = [s + k * b for s, e in ep for k in range(0, 6)]
-        ts = sorted(rng.choice(anchors + [e for _, e in ep] + [s + rng.randrange(0, 40000) for s, _ in ep]) for _ in range(rng.randint(0, 12)))
+        ts = sorted(rng.choice(anchors + [e for _, e in ep] + [s + rng.randrange(0, 40000) for s, _ in ep]) for _ in range(rng.randint(0, 12))) if ep else \
+            sorted(rng.randrange(0, 40000) for _ in range(rng.randint(0, 4)))
         out.append((ts, ep, b, "decimal"))
+    # odd numbers of ns: the centre is a half-tick; ends placed on / half a tick before / half a tick beyond a centre, and elsewhere
+    for _ in range(700 if q else 7000):
+        b = rng.choice([1, 3, 5, 7, 999, 1001, 2001, 12345, 1000001])
+        ep, x = [], rng.choice([0, 1, 17, 1000, 123456789])
+        for _i in range(rng.randint(1, 3)):
+            s = x + rng.choice([1, 2, 3, 1000, b, 2 * b + 1])
+            j = rng.randint(0, 6)
+            e = s + j * b + rng.choice([(b - 1) // 2, (b + 1) // 2, (b - 1) // 2, (b + 1) // 2, b, b - 1, 1, rng.randint(1, b + 1)])
+            if e <= s:
+                e = s + 1
+            ep.append((s, e))
+            x = e
+        anchors = [s + k * b + d for s, e in ep for k in range(0, 8) for d in (-1, 0, 1)] + [e for _, e in ep]
+        ts = sorted(rng.choice(anchors) for _ in range(rng.randint(0, 10)))
+        out.append((ts, ep, b, "odd_ns"))
+    out = [{"ts": ts, "ep": ep, "bin": b, "kind": kind} for ts, ep, b, kind in out]
+    # bin sizes that are not a whole number of ns (public API only; exact rationals), dyadic ones first
+    fr = [(1 / 1024, "s"), (1 / 2048, "s"), (1 / 4096, "s"), (1000 / 8192, "us"), (1 / 256, "us"), (3 / 2048, "us"), (5 / 2048, "us"), (21 / 8, "us"),
+          (1 / 1024, "ms"), (1 / 3, "ms"), (1e3 / 7, "us"), (1 / 30000, "s")]
+    for i in range(260 if q else 2600):
+        value, units = fr[i % len(fr)]
+        b = Fr(value) * UNITS[units]
+        ep, x = [], rng.choice([0, 1000, 123456789])
+        for _i in range(rng.randint(1, 2)):
+            s = x + rng.choice([1, 1000, 54321])
+            j = rng.randint(0, 14)
+            c = s + j * b + b / 2
+            e = rng.choice([int(c // 1), int(-((-c) // 1)), int(c // 1) + 1, int(c // 1) - 1, int((c + b / 2) // 1), int(c // 1) + rng.randint(0, max(1, int(b)))])
+            if e <= s:
+                e = s + 1
+            ep.append((s, e))
+            x = e
+        br = max(1, round(b))
+        anchors = []
+        for s, e in ep:
+            for k in range(0, 16):
+                for edge in (s + k * b, s + k * br):
+                    anchors += [int(edge // 1), int(-((-edge) // 1)), int(edge // 1) - 1, int(-((-edge) // 1)) + 1]
+        ts = sorted(rng.choice(anchors) for _ in range(rng.randint(1, 10)))
+        out.append({"ts": ts, "ep": ep, "bin": b, "value": value, "units": units, "kind": "not_whole_ns"})
+    # positive bin sizes below half a ns (tiny intervals: the stated grid has 2.5 to 4 bins per tick)
+    sub = [(4e-10, "s"), (1 / 4096, "us"), (0.0004, "us"), (1 / 2**32, "s"), (1e-10, "s"), (3e-7, "ms")]
+    for i in range(36 if q else 120):
+        value, units = sub[i % len(sub)]
+        s = rng.choice([0, 7, 1000])
+        ep = [(s, s + rng.randint(1, 4))]
+        ts = sorted(rng.randint(s, s + 4) for _ in range(rng.randint(0, 4)))
+        out.append({"ts": ts, "ep": ep, "bin": Fr(value) * UNITS[units], "value": value, "units": units, "kind": "below_half_ns"})
     return out
 
 
-def run(res, tier, seed):
+OFFS = [0, -3 * U, -1000 * U, 44236800 * U]     # the last one: one day (86400 s), still dyadic and a whole number of ns
+
+
+def shifted(c, n):
+    o = OFFS[n % len(OFFS)]
+    d = dict(c)
+    d["ts"] = [t + o for t in c["ts"]]
+    d["ep"] = [(a + o, b_ + o) for a, b_ in c["ep"]]
+    return d
+
+
+def viol(op, part, what, inp, flags=None, **kw):
+    key = {"op": op, "part": part}
+    key.update(flags or {})
+    v = {"key": key, "what": what, "input": inp}
+    v.update(kw)
+    return v
+
+
+# ---------------------------------------------------------------------------------------------------------------
+def kernel_case(J, c, inp):
+    """jitcount / jitbin_array against the statement (whole-ns bin sizes). -> (violations, impl count, impl avg)"""
+    ts, ep, b = c["ts"], c["ep"], c["bin"]
+    t = G.arr(ts)
+    st, en = G.arr([s for s, _ in ep]), G.arr([e for _, e in ep])
+    vs = values_of(ts)
+    out = []
+    bt, bc = J.jitcount(t, st, en, b / 1e9, np.dtype(np.int64))
+    impl = list(zip([C.to_ns(x) for x in bt], [int(x) for x in bc]))
+    exp = oracle(ts, ep, b)
+    part = diff_count(impl, exp)
+    if part:
+        fl = explain(diff_count, impl, lambda bb, late: oracle(ts, ep, bb, late), ep, b)
+        out.append(viol("jitcount", part, "binned count differs from the bin grid the property states", inp, fl, impl=impl, expected=exp))
+    at, ad = J.jitbin_array(t, np.asarray(vs, dtype=np.float64).reshape(-1, 1), st, en, b / 1e9)
+    impla = list(zip([C.to_ns(x) for x in at], ad[:, 0].tolist()))
+    expa = oracle_avg(ts, vs, ep, b)
+    part = diff_avg(impla, expa)
+    if part:
+        fl = explain(diff_avg, impla, lambda bb, late: oracle_avg(ts, vs, ep, bb, late), ep, b)
+        out.append(viol("jitbin_array", part, "bin_average differs from per-bin mean on the stated grid", inp, fl, impl=impla, expected=expa))
+    return out, impl, impla, exp, expa
+
+
+def values_of(ts):
+    return [(i * 7 + 3) % 11 for i in range(len(ts))]
+
+
+def support_of(x):
+    return [(C.to_ns(s), C.to_ns(e)) for s, e in x.time_support.values]
+
+
+def public_case(nap, n, c, inp):
+    """public count / bin_average / TsGroup.count against the statement. Returns every violation of the case."""
+    ts, ep, b = c["ts"], c["ep"], c["bin"]
+    vs = values_of(ts)
+    whole = b == int(b)
+    out = []
+    t = G.arr(ts)
+    epo = nap.IntervalSet(G.arr([s for s, _ in ep]), G.arr([e for _, e in ep]))
+    fvs = np.asarray(vs, float)
+    makers = {"Ts": lambda: nap.Ts(t), "Tsd": lambda: nap.Tsd(t, fvs), "TsdFrame": lambda: nap.TsdFrame(t, np.stack([fvs, fvs * 2], axis=1), columns=["a", "b"]),
+              "TsdTensor": lambda: nap.TsdTensor(t, np.stack([fvs, fvs * 2, fvs * 3, fvs * 4], axis=1).reshape(-1, 2, 2))}
+    order = ["Ts", "Tsd", "TsdFrame", "TsdTensor"]
+    cls = order[n % 4] if n % 3 else "Ts"
+    x = makers[cls]()
+    base = {"bin_whole_ns": bool(whole)}
+
+    def guarded(op, units, f):
+        try:
+            return f()
+        except Exception as ex:
+            fl = dict(base, units=units, exc=type(ex).__name__, bin_below_half_ns=bool(b < Fr(1, 2)))
+            out.append(viol(op, "exception", "%s raised %s: %s" % (op, type(ex).__name__, str(ex)[:120]), inp, fl))
+            return None
+
+    # 1. no bin size: per-interval counts over the closed intervals; they sum to len(restrict)
+    want = [sum(1 for q in ts if s <= q <= e) for s, e in ep]
+    c0 = guarded(cls + ".count(ep=)", "s", lambda: x.count(ep=epo))
+    if c0 is not None and ([int(v) for v in c0.values] != want or sum(want) != len(x.restrict(epo))):
+        out.append(viol(cls + ".count(ep=)", "count", "per-interval counts wrong or do not sum to len(restrict)", inp, impl=c0.values.tolist(), expected=want))
+    # 2. count with a bin size, in s / ms / us
+    exp = oracle(ts, ep, b)
+    ulist = [(u, b / f) for u, f in UNITS.items()] if whole else [(c["units"], c["value"])]
+    grid_ok = True
+    for units, val in ulist:
+        r = guarded(cls + ".count", units, lambda: x.count(float(val), epo, time_units=units))
+        if r is None:
+            grid_ok = False
+            continue
+        got = list(zip([C.to_ns(q) for q in r.t], [int(v) for v in r.values]))
+        part = diff_count(got, exp)
+        if part:
+            grid_ok = False
+            fl = dict(explain(diff_count, got, lambda bb, late: oracle(ts, ep, bb, late), ep, b), units=units)
+            out.append(viol(cls + ".count", part, "public count differs from the stated grid", inp, fl, impl=got, expected=exp))
+        elif support_of(r) != list(ep) and not (not exp and support_of(r) == []):
+            out.append(viol(cls + ".count", "support", "support of count is not ep", inp, dict(base, units=units), impl=support_of(r)))
+    # 3. dtypes (rotating; the grid itself was judged in 2.)
+    if whole and grid_ok:
+        for dt in (DTYPES[n % len(DTYPES)], DTYPES[(n // 7 + 1) % len(DTYPES)]):
+            r = guarded(cls + ".count", "s", lambda: x.count(b / 1e9, epo, dtype=dt))
+            if r is not None and (r.values.dtype != np.dtype(dt) or [int(v) for v in r.values] != [e_[1] for e_ in exp]):
+                out.append(viol(cls + ".count", "dtype", "count with dtype %s differs" % np.dtype(dt), inp, dict(base, dtype=str(np.dtype(dt))), impl=r.values.tolist()))
+    # 4. bin_average on Tsd / TsdFrame / TsdTensor (rotating), in s / ms / us, empty series included
+    expa = oracle_avg(ts, vs, ep, b)
+    acls = order[1 + n % 3]
+    y = makers[acls]()
+    for units, val in ulist:
+        op = acls + ".bin_average"
+        r = guarded(op, units, lambda: y.bin_average(float(val), epo, time_units=units))
+        if r is None:
+            continue
+        if type(r).__name__ != acls or r.values.shape[1:] != y.values.shape[1:] or (acls == "TsdFrame" and list(r.columns) != ["a", "b"]):
+            out.append(viol(op, "shape", "bin_average changed the class / trailing shape / columns", inp, dict(base, units=units), impl=[type(r).__name__, list(r.values.shape)]))
+            continue
+        flat = r.values.reshape(len(r), int(np.prod(r.values.shape[1:])))
+        rt = [C.to_ns(q) for q in r.t]
+        part = None
+        for k in range(flat.shape[1]):
+            got = list(zip(rt, flat[:, k].tolist()))
+            part = diff_avg(got, expa, scale=k + 1)
+            if part:
+                fl = dict(explain(lambda g, e_: diff_avg(g, e_, scale=k + 1), got, lambda bb, late: oracle_avg(ts, vs, ep, bb, late), ep, b), units=units)
+                out.append(viol(op, part, "bin_average differs from the per-bin mean (NaN if none) on the stated grid, column %d" % k, inp, fl, impl=got, expected=expa))
+                break
+        if flat.shape[1] == 0 and len(r) != len(expa):
+            part = "grid"
+            out.append(viol(op, part, "bin_average grid differs", inp, dict(base, units=units), impl=rt, expected=expa))
+        if part is None and support_of(r) != list(ep) and not (not expa and support_of(r) == []):
+            out.append(viol(op, "support", "support of bin_average is not ep", inp, dict(base, units=units), impl=support_of(r)))
+    # 5. TsGroup.count: column k = member k's count (timestamps = the centres), labels = sorted keys; with units and dtype; and without bin size
+    allt = [s for s, _ in ep] + [e for _, e in ep] + ts
+    wide = nap.IntervalSet(min(allt + [0]) / 1e9 - 1.0, max(allt + [0]) / 1e9 + 1.0)
+    t2 = t[::2]
+    g = nap.TsGroup({5: nap.Ts(t), 2: nap.Ts(t2), 3: nap.Tsd(t[:1], fvs[:1])}, time_support=wide)
+    members = {2: ts[::2], 3: ts[:1], 5: ts}
+    units, val = ulist[n % len(ulist)]
+    dt = DTYPES[(n // 3) % len(DTYPES)] if whole else np.int64
+    gc = guarded("TsGroup.count", units, lambda: g.count(float(val), epo, time_units=units, dtype=dt))
+    if gc is not None:
+        gt = [C.to_ns(q) for q in gc.t]
+        if list(gc.columns) != [2, 3, 5]:
+            out.append(viol("TsGroup.count", "labels", "columns are not the sorted keys", inp, dict(base, units=units), impl=list(gc.columns)))
+        elif gc.values.dtype != np.dtype(dt):
+            out.append(viol("TsGroup.count", "dtype", "group count dtype is not %s" % np.dtype(dt), inp, dict(base, dtype=str(np.dtype(dt))), impl=str(gc.values.dtype)))
+        else:
+            for k, key in enumerate([2, 3, 5]):
+                got = list(zip(gt, [int(v) for v in gc.values[:, k]]))
+                expk = oracle(members[key], ep, b)
+                part = diff_count(got, expk)
+                if part:
+                    fl = dict(explain(diff_count, got, lambda bb, late: oracle(members[key], ep, bb, late), ep, b), units=units)
+                    out.append(viol("TsGroup.count", part, "group count column %d differs from member %d's count on the stated grid" % (k, key), inp, fl, impl=got, expected=expk))
+                    break
+    g0 = guarded("TsGroup.count(ep=)", "s", lambda: g.count(ep=epo))
+    if g0 is not None:
+        wantg = [[sum(1 for q in members[key] if s <= q <= e) for key in (2, 3, 5)] for s, e in ep]
+        if list(g0.columns) != [2, 3, 5] or [[int(v) for v in row] for row in g0.values] != wantg:
+            out.append(viol("TsGroup.count(ep=)", "count", "group per-interval counts / labels wrong", inp, impl=g0.values.tolist(), expected=wantg))
+    return out
+
+
+def run(res, tier, seed, only=None):
     nap, J = _nap()
     warnings.simplefilter("ignore")
-    res.rule = ("kernel jitcount + jitbin_array and public count/bin_average/TsGroup.count: ALL (<=2 intervals, <=3(4) samples, 5 bin sizes shorter than/equal to/longer than/"
+    res.rule = ("kernel jitcount + jitbin_array and public count (Ts/Tsd/TsdFrame/TsdTensor) / bin_average (Tsd/TsdFrame/TsdTensor, s/ms/us) / TsGroup.count (3 members incl. a "
+                "Tsd, units, dtype, and without bin size): ALL (<=2 intervals incl. the empty IntervalSet, <=3(4) samples, 5 bin sizes shorter than/equal to/longer than/"
                 "not dividing the interval) on a 7(8)-point dyadic lattice (2^-9 s) [seeded subsample of the complete product in quick, complete in thorough] incl. samples on bin "
-                "edges and interval ends, centre == end; + random decimal-lattice cases. Compared with the extracted model AND the brute-force statement of the property. "
+                "edges and interval ends, centre == end; + random decimal-lattice cases with even bin sizes; + random cases with ODD numbers of ns (1 ns .. 1000001 ns; ends on, "
+                "half a tick before and half a tick beyond a bin centre); + (public API only, statement in exact rationals) bin sizes that are NOT a whole number of ns "
+                "(1/1024 s, 1/256 us, 1/3 ms, 1/30000 s ...; samples next to the exact and to the ns-rounded bin edges) and positive bin sizes below 0.5 ns; time offsets 0, "
+                "-5.9 ms, -1.95 s, +1 day. Whole-ns cases are compared with the extracted model AND the brute-force statement of the property; 7 count dtypes rotate. "
                 "non-trivial = at least one sample; distinct = distinct (ts, ep, b)")
     res.exhaustive = tier == "thorough"
-    cs = cases(tier, seed)
-    offs = [0, -3 * U, -1000 * U]
-    cs = [([t + offs[n % 3] for t in ts], [(a + offs[n % 3], b_ + offs[n % 3]) for a, b_ in ep], b, kind) for n, (ts, ep, b, kind) in enumerate(cs)]
+    cs = [shifted(c, n) for n, c in enumerate(cases(tier, seed))]
+    if only is not None:
+        cs = [c for c in cs if only(c)]
+    wh = [c for c in cs if "value" not in c]
     lines = []
-    for ts, ep, b, kind in cs:
-        vs = [(i * 7 + 3) % 11 for i in range(len(ts))]
+    for c in wh:
+        ts, ep, b = c["ts"], c["ep"], c["bin"]
         lines.append("count\t%s\t%s\t%d" % (C.fmt_ints(ts), C.fmt_iset(ep), b))
-        lines.append("bin_average\t%s\t%s\t%s\t%d" % (C.fmt_ints(ts), C.fmt_ints(vs), C.fmt_iset(ep), b))
-    out = C.run_model(lines)
-    for n, (ts, ep, b, kind) in enumerate(cs):
-        t = G.arr(ts)
-        st, en = G.arr([s for s, _ in ep]), G.arr([e for _, e in ep])
-        vs = [(i * 7 + 3) % 11 for i in range(len(ts))]
-        inp = {"ts": ts, "ep": ep, "bin": b}
+        lines.append("bin_average\t%s\t%s\t%s\t%d" % (C.fmt_ints(ts), C.fmt_ints(values_of(ts)), C.fmt_iset(ep), b))
+    out = C.run_model(lines) if lines else []
+    stride = 5 if tier == "quick" else 3
+    mi = -1
+    for n, c in enumerate(cs):
+        ts, ep, b, kind = c["ts"], c["ep"], c["bin"], c["kind"]
+        whole = "value" not in c
+        mi += 1 if whole else 0
+        inp = {"ts": ts, "ep": ep, "bin": b if whole else str(b), "kind": kind, "n": n}
+        if not whole:
+            inp.update(value=c["value"], units=c["units"])
         res.case((tuple(ts), tuple(ep), b), nontrivial=len(ts) > 0)
         res.count("kind=" + kind)
         res.count("n_samples=%d" % min(len(ts), 4))
-        tie = any(2 * (s + j * b) + b == 2 * e for s, e in ep for j in range(0, 50))
-        on_edge = any((x - s) % b == 0 for s, e in ep for x in ts if s <= x <= e)
-        if on_edge:
+        if not ep:
+            res.count("empty_intervalset")
+        if any((x - s) % b == 0 for s, e in ep for x in ts if s <= x <= e):
             res.count("sample_on_bin_edge")
-        if tie:
+        if any(e - s >= b / 2 and (2 * (e - s) - b) % (2 * b) == 0 for s, e in ep):
             res.count("centre_equals_end")
-        amb = False  # since the centre is rounded like the edges (fix in /repo) ties are deterministic on decimal lattices too
-        bt, bc = J.jitcount(t, st, en, b / 1e9, np.dtype(np.int64))
-        exp = oracle(ts, ep, b)
-        m0 = out[2 * n].split("|")
-        mod = list(zip([int(x) for x in m0[0].split()], [int(x) for x in m0[1].split()]))
-        impl = list(zip([C.to_ns(x) for x in bt], [int(x) for x in bc]))
-        ok_impl = len(impl) == len(exp) and all(centre_ok(a[0], e_[0]) and a[1] == e_[1] for a, e_ in zip(impl, exp))
-        if not ok_impl:
-            if amb:
-                res.float_ambiguous += 1
-            else:
-                res.violations.append({"key": {"op": "jitcount"}, "what": "binned count differs from the bin grid the property states", "input": inp,
-                                       "impl": impl, "expected": exp})
-        if mod != exp:
-            res.disagreements.append({"op": "count model vs statement", "input": inp, "model": mod, "expected": exp})
-        ok_mod = len(impl) == len(mod) and all(centre_ok(a[0], e_[0]) and a[1] == e_[1] for a, e_ in zip(impl, mod))
-        if not ok_mod and not amb:
-            res.disagreements.append({"op": "jitcount", "input": inp, "impl": impl, "model": mod})
-        # bin_average
-        at, ad = J.jitbin_array(t, np.asarray(vs, dtype=np.float64).reshape(-1, 1), st, en, b / 1e9)
-        expa = oracle_avg(ts, vs, ep, b)
-        m1 = out[2 * n + 1].split("|")
-        moda = list(zip([int(x) for x in m1[0].split()], [int(x) for x in m1[1].split()], [int(x) for x in m1[2].split()]))
-        if moda != expa:
-            res.disagreements.append({"op": "bin_average model vs statement", "input": inp, "model": moda, "expected": expa})
-        okb = len(at) == len(expa)
-        if okb:
-            for x, d, (c2, cnt, sm) in zip(at, ad[:, 0], expa):
-                if not centre_ok(C.to_ns(x), c2):
-                    okb = False
-                elif cnt == 0:
-                    okb = okb and np.isnan(d)
-                else:
-                    okb = okb and (not np.isnan(d)) and abs(d * cnt - sm) < 1e-9
-        if not okb:
-            if amb:
-                res.float_ambiguous += 1
-            else:
-                res.violations.append({"key": {"op": "jitbin_array"}, "what": "bin_average differs from per-bin mean on the stated grid", "input": inp,
-                                       "impl": [[C.to_ns(x) for x in at], ad[:, 0].tolist()], "expected": expa})
-        if n % 4001 == 0:
-            res.sample({"ts": ts, "ep": ep, "bin": b, "count": impl})
-        # public API on a subsample
-        if n % (5 if tier == "quick" else 3) == 0 and not amb:
-            try:
-                v = public_case(nap, ts, vs, ep, b, exp, expa)
-            except Exception as ex:
-                v = {"key": {"op": "public", "part": "exception"}, "what": "public count/bin_average raised %s: %s" % (type(ex).__name__, str(ex)[:120])}
+        if whole and late_candidates(ep, b):
+            res.count("centre_half_tick_beyond_end")
+        if whole and b % 2 and any(e - s >= Fr(b + 1, 2) and (2 * (e - s) - 1 - b) % (2 * b) == 0 for s, e in ep):
+            res.count("centre_half_tick_before_end")
+        if whole:
+            vk, impl, impla, exp, expa = kernel_case(J, c, inp)
+            res.violations.extend(vk)
+            m0 = out[2 * mi].split("|")
+            mod = list(zip([int(x) for x in m0[0].split()], [int(x) for x in m0[1].split()]))
+            if mod != exp:
+                res.disagreements.append({"op": "count model vs statement", "input": inp, "model": mod, "expected": exp})
+            elif diff_count(impl, mod) and not vk:
+                res.disagreements.append({"op": "jitcount", "input": inp, "impl": impl, "model": mod})
+            m1 = out[2 * mi + 1].split("|")
+            moda = list(zip([int(x) for x in m1[0].split()], [int(x) for x in m1[1].split()], [int(x) for x in m1[2].split()]))
+            if moda != expa:
+                res.disagreements.append({"op": "bin_average model vs statement", "input": inp, "model": moda, "expected": expa})
+            if n % 4001 == 0:
+                res.sample({"ts": ts, "ep": ep, "bin": b, "count": impl})
+        elif near_miss(ts, ep, b):
+            res.float_ambiguous += 1
+            continue
+        # public API: a subsample of the lattice cases, every odd / non-whole / sub-ns case
+        if n % stride == 0 or kind in ("not_whole_ns", "below_half_ns") or (kind == "odd_ns" and n % 2 == 0):
             res.evaluations += 1
-            if v:
-                v["input"] = inp
-                res.violations.append(v)
-
-
-def public_case(nap, ts, vs, ep, b, exp, expa):
-    t = G.arr(ts)
-    epo = nap.IntervalSet(G.arr([s for s, _ in ep]), G.arr([e for _, e in ep]))
-    x = nap.Ts(t)
-    # no bin size: per-interval counts, sum = len(restrict)
-    c0 = x.count(ep=epo)
-    want = [sum(1 for q in ts if s <= q <= e) for s, e in ep]
-    if [int(v) for v in c0.values] != want or sum(want) != len(x.restrict(epo)):
-        return {"key": {"op": "count(ep=)"}, "what": "per-interval counts wrong or do not sum to len(restrict)", "impl": c0.values.tolist(), "expected": want}
-    for units, f in (("s", 1e9), ("ms", 1e6), ("us", 1e3)):
-        c = x.count(b / f, epo, time_units=units)
-        got = list(zip([C.to_ns(q) for q in c.t], [int(v) for v in c.values]))
-        if not (len(got) == len(exp) and all(centre_ok(a[0], e_[0]) and a[1] == e_[1] for a, e_ in zip(got, exp))):
-            return {"key": {"op": "Ts.count", "units": units}, "what": "public count differs from the stated grid", "impl": got, "expected": exp}
-        if [(C.to_ns(s), C.to_ns(e)) for s, e in c.time_support.values] != (list(ep) if exp else []):
-            return {"key": {"op": "Ts.count", "part": "support"}, "what": "support of count is not ep"}
-    for dt in (np.int32, np.float64, np.int64):
-        c = x.count(b / 1e9, epo, dtype=dt)
-        if c.values.dtype != np.dtype(dt) or [int(v) for v in c.values] != [e_[1] for e_ in exp]:
-            return {"key": {"op": "Ts.count", "dtype": str(dt)}, "what": "count with dtype differs", "impl": c.values.tolist()}
-    if len(ts):
-        d2 = np.stack([np.asarray(vs, float), np.asarray(vs, float) * 2], axis=1)
-        fr = nap.TsdFrame(t, d2, columns=["a", "b"])
-        r = fr.bin_average(b / 1e9, epo)
-        if len(r) != len(expa) or list(r.columns) != ["a", "b"]:
-            return {"key": {"op": "TsdFrame.bin_average"}, "what": "bin_average grid/columns wrong", "impl": [len(r)], "expected": len(expa)}
-        for row, (c2, cnt, sm) in zip(r.values, expa):
-            if cnt == 0:
-                if not np.all(np.isnan(row)):
-                    return {"key": {"op": "TsdFrame.bin_average"}, "what": "empty bin is not NaN"}
-            elif abs(row[0] * cnt - sm) > 1e-9 or abs(row[1] * cnt - 2 * sm) > 1e-9:
-                return {"key": {"op": "TsdFrame.bin_average"}, "what": "per-column mean wrong", "impl": row.tolist(), "expected": [sm, cnt]}
-    # TsGroup.count: column k = member k's count, labels = sorted keys
-    wide = nap.IntervalSet(min([s for s, _ in ep] + ts) / 1e9 - 1.0, max([e for _, e in ep] + ts) / 1e9 + 1.0)
-    t2 = t[::2]
-    g = nap.TsGroup({5: nap.Ts(t), 2: nap.Ts(t2)}, time_support=wide)
-    gc = g.count(b / 1e9, epo)
-    exp2 = oracle(ts[::2], ep, b)
-    if list(gc.columns) != [2, 5] or [int(v) for v in gc.values[:, 1]] != [e_[1] for e_ in exp] or [int(v) for v in gc.values[:, 0]] != [e_[1] for e_ in exp2]:
-        return {"key": {"op": "TsGroup.count"}, "what": "group count column differs from member count / labels not sorted keys", "impl": gc.values.tolist()}
-    return None
+            res.count("public_cases")
+            try:
+                vp = public_case(nap, n, c, inp)
+            except Exception as ex:
+                vp = [viol("public", "exception", "harness-level exception in the public calls %s: %s" % (type(ex).__name__, str(ex)[:160]), inp,
+                           {"exc": type(ex).__name__, "bin_whole_ns": bool(whole), "bin_below_half_ns": bool(b < Fr(1, 2))})]
+            res.violations.extend(vp)
+            if not whole and len(res.samples) < 5 and n % 97 == 0:
+                res.sample({"ts": ts, "ep": ep, "bin_ticks": str(b), "value": c["value"], "units": c["units"], "violations": len(vp)})
 
 
 def search(res, seed):
@@ -216,12 +449,28 @@ def replay(payload):
     warnings.simplefilter("ignore")
     v = payload.get("violation") or (payload.get("disagreements") or [{}])[0]
     inp = v.get("input", {})
-    ts, ep, b = inp.get("ts", []), [tuple(x) for x in inp.get("ep", [])], inp.get("bin", 1000)
-    bt, bc = J.jitcount(G.arr(ts), G.arr([s for s, _ in ep]), G.arr([e for _, e in ep]), b / 1e9, np.dtype(np.int64))
-    impl = list(zip([C.to_ns(x) for x in bt], [int(x) for x in bc]))
-    exp = oracle(ts, ep, b)
+    c = {"ts": list(inp.get("ts", [])), "ep": [tuple(x) for x in inp.get("ep", [])], "kind": inp.get("kind", "replay")}
+    n = int(inp.get("n", 0))
+    if "value" in inp:
+        c.update(value=float(inp["value"]), units=inp["units"], bin=Fr(float(inp["value"])) * UNITS[inp["units"]])
+    else:
+        c["bin"] = int(inp.get("bin", 1000))
     print("input", inp)
-    print("implementation (centre tick, count):", impl)
-    print("expected (2*centre, count)         :", exp)
-    ok = len(impl) == len(exp) and all(centre_ok(a[0], e_[0]) and a[1] == e_[1] for a, e_ in zip(impl, exp))
-    return 0 if ok else 1
+    vs = []
+    if "value" not in c:
+        vk, impl, impla, exp, expa = kernel_case(J, c, inp)
+        print("jitcount (centre tick, count)  :", impl)
+        print("statement (2*centre, count)    :", exp)
+        vs += vk
+    try:
+        vs += public_case(nap, n, c, inp)
+    except Exception as ex:
+        print("public calls raised", type(ex).__name__, ex)
+        return 1
+    for x in vs:
+        print("VIOLATED:", x["key"], "-", x["what"])
+        if "impl" in x:
+            print("   implementation:", x["impl"])
+        if "expected" in x:
+            print("   expected      :", x["expected"])
+    return 1 if vs else 0
